@@ -58,31 +58,22 @@ Definition table_wf : bool :=
                     end) [calls_Execute; calls_ExecuteContext].
 
 Definition reset_complete : Prop := table_wf = true /\ unreset_fields = [].
-Definition reset_complete_except (leak : list field) : Prop :=
-  table_wf = true /\ unreset_fields = leak.
 
 Lemma table_wf_holds : table_wf = true.
 Proof. vm_compute. reflexivity. Qed.
 
-(* pinned tree: exactly three fields are written during a run and reset nowhere *)
-Lemma unreset_fields_exact : unreset_fields = ["fieldNames"; "fieldIndexes"; "reparseCSV"].
+(* every mutable RunState field is certainly assigned by resetCore or setExecuteConfig, every variable by
+   resetVars, the random state by ResetRand, every ConfigSet field by setExecuteConfig or the prologue, the
+   context fields by ExecuteContext, constants are written by newInterp only, nativeFuncs by initNativeFuncs
+   only; no field is unclassified *)
+Lemma reset_complete_holds : reset_complete.
+Proof. split; vm_compute; reflexivity. Qed.
+
+(* the three fields that used to leak (F-C14-1, F-C14-2, repaired) are written during a run and are now
+   assigned by resetCore *)
+Lemma formerly_leaking_reset :
+  forallb (fun f => mem f may_run && mem f (must_fields fn_resetCore)) ["fieldNames"; "fieldIndexes"; "reparseCSV"] = true.
 Proof. vm_compute. reflexivity. Qed.
-
-Lemma reset_complete_refuted : ~ reset_complete.
-Proof. intros [_ H]. rewrite unreset_fields_exact in H. discriminate. Qed.
-
-Lemma reset_complete_partial : reset_complete_except leaking_fields.
-Proof. split; [exact table_wf_holds | exact unreset_fields_exact]. Qed.
-
-(* who writes the three fields, and that no reset function mentions them *)
-Lemma leaking_fields_writers :
-  writers_of "fieldNames" = ["setFieldNames"] /\
-  writers_of "fieldIndexes" = ["getFieldByName"; "getFieldByName"; "setFieldNames"] /\
-  writers_of "reparseCSV" = ["execActions"; "setLine"] /\
-  forallb (fun f => negb (mem f (map w_field (fn_resetCore ++ fn_resetVars ++ fn_ResetRand ++ fn_Execute ++
-                                              fn_ExecuteContext ++ fn_setExecuteConfig)))) leaking_fields = true /\
-  forallb (fun f => mem f may_run) leaking_fields = true.
-Proof. vm_compute. repeat split; reflexivity. Qed.
 
 (* ---------- the hand-written model agrees with the generated table ---------- *)
 
